@@ -101,12 +101,29 @@ def run(pid, tier, replay=None):
             # the chain *without* this block and its descendants is not needed: validation is against the parent's state,
             # and offering a block whose id is already stored is exactly the "same id, different content" case
             events = []
+            # the genuine bytes have been decoded by this process before the altered copies arrive (a block relayed by several peers)
+            try:
+                from skepticoin.datatypes import Block as _B
+                if indep.enc_block(_B.deserialize(raw)) != raw:
+                    chk.model_drift("the genuine encoding does not decode to itself")
+            except Exception as e_:
+                chk.model_drift("the genuine encoding does not decode: %r" % e_)
+            # the same chain without this block and its descendants: the state the genuine block was valid against (an alteration that keeps
+            # the header keeps the id, and a state that already stores that id is a different question -- both are asked)
+            desc = {blk.hash()}
+            cs_wo = w.T["CoinState"].empty()
+            for a2 in rt.stored:
+                b2 = w.by_abs[a2]
+                if b2.header.summary.previous_block_hash in desc or b2.hash() in desc:
+                    desc.add(b2.hash())
+                    continue
+                cs_wo = cs_wo.add_block_no_validation(b2)
             muts = [(o, b) for o in range(len(raw)) for b in range(8)]
             for (o, b) in muts:
                 m = raw[:o] + bytes([raw[o] ^ (1 << b)]) + raw[o + 1:]
-                events.append(one(m, o, b, cls(o), blk, cs_full, now, stats))
+                events.append(one(m, o, b, cls(o), blk, cs_full, now, stats, cs_wo))
             for cut in range(0, len(raw)):
-                events.append(one(raw[:cut], cut, -1, cls(min(cut, len(raw) - 1)), blk, cs_full, now, stats))
+                events.append(one(raw[:cut], cut, -1, cls(min(cut, len(raw) - 1)), blk, cs_full, now, stats, cs_wo))
             tid += 1
             traces.append({"id": tid, "size": len(raw), "events": events})
             chk.evaluations += len(events)
@@ -135,9 +152,13 @@ def run(pid, tier, replay=None):
     return chk.finish()
 
 
-def one(m, off, bit, fclass, orig, cs, now, stats):
+def one(m, off, bit, fclass, orig, cs, now, stats, cs_without=None):
     from skepticoin.datatypes import Block
     ev = {"off": off, "bit": bit, "field": fclass, "outcome": "decode_error", "rule": "", "same_id": False, "same_content": False}
+    try:
+        Block.deserialize(orig.serialize())         # the genuine block was relayed (and decoded) just before the altered copy arrives
+    except Exception:
+        pass
     try:
         b = Block.deserialize(m)
     except Exception:
@@ -149,6 +170,14 @@ def one(m, off, bit, fclass, orig, cs, now, stats):
     except Exception:
         pass
     try:
+        if cs_without is not None and ev["same_id"]:
+            try:
+                cs_without.add_block(b, now)
+                ev["outcome"] = "accepted"          # accepted by the chain state the genuine block was valid against
+                stats["accepted"] += 1
+                return ev
+            except Exception:
+                pass
         cs.add_block(b, now)
         ev["outcome"] = "accepted"
         stats["accepted"] += 1
